@@ -17,8 +17,10 @@
 //	derivedset  DerivedSet.InheritFrom of 1..3 sources (incl. unsubscribing a source) and SubtractReactive
 //	            (token "noreplace": sources are never Replaced)
 //	counter     Counter.Monitor of 1..3 inputs, default and custom condition
-//	sortedset   SortedSet with weight variables; members (Add/Delete/Replace) racing with weighers
-//	            (tokens: "nodelete" = members only add; "disjoint" = weighers never touch an element that a member may delete)
+//	sortedset   SortedSet with weight variables; members (Add/Delete/AddAll/DeleteAll/Replace) racing with weighers
+//	            (tokens: "nodelete" = members only add; "noadd" = all elements are members from the start and members
+//	            only delete; "disjoint" = elements 3,4 are members throughout and only change weight, members add and
+//	            delete 1,2 only)
 //	waitgroup   WaitGroup Add/Done/Wait (token "nodupadd": an element is never added twice)
 //	eviction    EvictionState Evict/EvictionEvent
 //
